@@ -3,6 +3,7 @@ package c03
 import (
 	"fmt"
 	"reflect"
+	"regexp"
 	"strconv"
 
 	"github.com/mattn/anko/ast"
@@ -148,6 +149,8 @@ func fold(n *Node) *Node {
 
 // ---------- canonical text of a run-time value ----------
 
+var addrRe = regexp.MustCompile(`0x[0-9a-f]{6,16}`)
+
 func canon(v reflect.Value, depth int) string {
 	if !v.IsValid() {
 		return "nil"
@@ -199,7 +202,8 @@ func canon(v reflect.Value, depth int) string {
 	case reflect.Float64, reflect.Float32:
 		return v.Type().String() + ":" + strconv.FormatFloat(v.Float(), 'g', -1, 64)
 	case reflect.String:
-		return "string:" + strconv.Quote(v.String())
+		// a pointer concatenated to a string prints its address: mask it
+		return "string:" + strconv.Quote(addrRe.ReplaceAllString(v.String(), "0xADDR"))
 	case reflect.Struct:
 		return "struct:" + v.Type().String()
 	}
